@@ -4,6 +4,8 @@ package props
 
 import (
 	"encoding/json"
+	"strings"
+	"unicode"
 	"os"
 	"path/filepath"
 	"sort"
@@ -40,4 +42,46 @@ func p04RunCorpus(c *vf.Ctx, prop string, exec func(d *vf.Driver, data json.RawM
 		exec(d, data)
 		c.Count("corpus")
 	}
+}
+
+// p04Strings: string CONTENT classes for every string-valued claim (all valid UTF-8): U+FFFD as a
+// genuine character, NUL, controls, non-BMP, U+2028/2029, BOM, characters encoding/json escapes on
+// output (<, >, &), neighbours of U+FFFD, a long string.
+var p04Strings = []string{"", "a", "joe", "héllo wörld", "x y\tz", "\"quoted\"", "日本語", "a,omitempty",
+	"\ufffd", "re\ufffdplacement", "\ufffc\ufffe", "\U0010fffd", "nul\x00byte", "\x01\x1f\x7f", "😀 non-BMP 𝔘", "line\u2028sep\u2029",
+	"\ufeffbom", "<script>&amp;</script>", "back\\slash/", "ſ K Iss", strings.Repeat("long-", 400)}
+
+// p04StringLits: the same as JSON literals, plus ESCAPE spellings whose decoding is not the
+// identity on the text: a lone surrogate escape decodes to U+FFFD (encoding/json), a surrogate pair
+// escape to the non-BMP character, \u0000 to NUL.
+func p04StringLits() []string {
+	var out []string
+	for _, s := range p04Strings {
+		b, _ := json.Marshal(s)
+		out = append(out, string(b))
+	}
+	return append(out, `"\ud800"`, `"x\udc00y"`, `"\ud83d\ude00"`, `"a\u0000b"`, `"\ufffd"`, `"\u003c\u2028"`, "\"\ufffd raw\"", "\"😀\"")
+}
+
+// p04NameVariants: spellings of a member name that are NOT the name (exact, case-sensitive lookup):
+// upper, title, Unicode fold-equivalents (ſ for s, Kelvin sign for k), surrounding space.
+func p04NameVariants(n string) []string {
+	if n == "" {
+		return nil
+	}
+	title := string(unicode.ToUpper([]rune(n)[0])) + string([]rune(n)[1:])
+	vs := []string{strings.ToUpper(n), title, n + " ", " " + n}
+	if strings.ContainsAny(n, "sS") {
+		vs = append(vs, strings.NewReplacer("s", "ſ", "S", "ſ").Replace(n))
+	}
+	if strings.ContainsAny(n, "kK") {
+		vs = append(vs, strings.NewReplacer("k", "\u212a", "K", "\u212a").Replace(n))
+	}
+	var out []string
+	for _, v := range vs {
+		if v != n {
+			out = append(out, v)
+		}
+	}
+	return out
 }
